@@ -367,26 +367,39 @@ def build(repo=None):
     # ================================================================== _make_argpiece
     ap = mod.func("_make_argpiece")
     functions.append({"qualname": "jaxtyping._decorator._make_argpiece", "sha256_16": mod.sha(ap), "lines": [ap.lineno, ap.end_lineno]})
-    eng = Engine(mod)
-    eng.globals["inspect"] = Opaque("module:inspect")
-    st = State()
-    pname = z3.String("pname")
-    A = st.alloc(DictObj(STR, STR, tag="name_to_annotation"))
-    D = st.alloc(DictObj(STR, STR, tag="name_to_default"))
-    p = Opaque("p", attrs={"name": Z("str", pname), "default": Opaque("p.default")})
-    pa = [a.arg for a in ap.args.args]
-    st.env = {pa[0]: p, pa[1]: A, pa[2]: D}
-    st.pc = [st.get(A).d[pname], st.get(D).d[pname]]
-    an, dn = st.get(A).m[pname], st.get(D).m[pname]
-    for s1, o in eng.run(ap.body, st):
-        paths += 1
-        if o.kind == "return" and isinstance(o.val, Z) and o.val.kind == "str":
-            with_default = z3.Concat(pname, z3.StringVal(": "), an, z3.StringVal(" = "), dn)
-            without = z3.Concat(pname, z3.StringVal(": "), an)
-            eng.oblige(s1, "argpiece:is-name-colon-its-annotation-name-optionally-equals-its-default-name", z3.Or(o.val.t == with_default, o.val.t == without))
-        else:
-            eng.oblige(s1, f"argpiece:returns-a-string[{o.kind}]", z3.BoolVal(False))
-    obligations.extend(st.obl)
+    EMPTY = Opaque("sentinel:inspect-empty-marker", z3.Const("inspect_empty", U))  # inspect.Signature.empty is inspect.Parameter.empty
+    for has_default in (False, True):
+        eng = Engine(mod)
+        eng.globals["inspect"] = Opaque("module:inspect", attrs={"Signature": Opaque("inspect.Signature", attrs={"empty": EMPTY}), "Parameter": Opaque("inspect.Parameter", attrs={"empty": EMPTY}), "_empty": EMPTY})
+        st = State()
+        pname = z3.String("pname")
+        A = st.alloc(DictObj(STR, STR, tag="name_to_annotation"))
+        D = st.alloc(DictObj(STR, STR, tag="name_to_default"))
+        user_default = Opaque("user-default-value", z3.Const("user_default", U))
+
+        def eq_hook(e, s, x, y):
+            # `==` / `!=` on the user's default object runs the user's __eq__: any answer (numpy arrays answer with an array, mocks with True)
+            if x is user_default or y is user_default:
+                return z3.FreshConst(BOOL, "user_eq_answer")
+            return None
+
+        eng.method_models["__eq__"] = eq_hook
+        p = Opaque("p", attrs={"name": Z("str", pname), "default": user_default if has_default else EMPTY})
+        pa = [a.arg for a in ap.args.args]
+        st.env = {pa[0]: p, pa[1]: A, pa[2]: D}
+        st.pc = [st.get(A).d[pname], st.get(D).d[pname], user_default.t != EMPTY.t]  # "has a default" means: p.default is not the marker object
+        an, dn = st.get(A).m[pname], st.get(D).m[pname]
+        for s1, o in eng.run(ap.body, st):
+            paths += 1
+            if o.kind == "return" and isinstance(o.val, Z) and o.val.kind == "str":
+                with_default = z3.Concat(pname, z3.StringVal(": "), an, z3.StringVal(" = "), dn)
+                without = z3.Concat(pname, z3.StringVal(": "), an)
+                eng.oblige(s1, "argpiece:is-name-colon-its-annotation-name-optionally-equals-its-default-name", z3.Or(o.val.t == with_default, o.val.t == without))
+                eng.oblige(s1, "argpiece:the-default-is-kept-exactly-when-the-parameter-has-one(identity-test-against-inspect's-empty-marker,-the-default's-own-__eq__-is-never-consulted)",
+                           o.val.t == (with_default if has_default else without))
+            else:
+                eng.oblige(s1, f"argpiece:returns-a-string[{o.kind}]", z3.BoolVal(False))
+        obligations.extend(st.obl)
 
     out = []
     for ob in obligations:
